@@ -26,6 +26,7 @@ type streeModel struct {
 	rootF               *types.Var
 	small, large        *types.Var // orientation derived from inorder
 	inorder             *ssa.Function
+	validWitnessBusy    map[*ssa.Function]bool
 }
 
 type childAccess struct {
@@ -648,6 +649,42 @@ func (m *streeModel) validFactAt(b *ssa.BasicBlock, cur ssa.Value) bool {
 			return true
 		}
 	}
+	// a node accessor that answers non-nil only for a valid cursor (cur := c.top(); cur != nil): its non-nil answer
+	// is the validity test
+	for _, cm := range cmpsAt(b) {
+		if cm.Op != token.NEQ {
+			continue
+		}
+		for _, pr := range [][2]ssa.Value{{cm.X, cm.Y}, {cm.Y, cm.X}} {
+			call, ok := pr[0].(*ssa.Call)
+			if !ok || !isNilConst(pr[1]) || len(call.Call.Args) != 1 || call.Call.Args[0] != cur {
+				continue
+			}
+			cal := origin(staticCallee(&call.Call))
+			if cal == nil || cal.Blocks == nil || len(cal.Params) != 1 || m.validWitnessBusy[cal] {
+				continue
+			}
+			if m.validWitnessBusy == nil {
+				m.validWitnessBusy = map[*ssa.Function]bool{}
+			}
+			m.validWitnessBusy[cal] = true
+			witness := true
+			allInstrs(cal, func(in ssa.Instruction) {
+				ret, ok := in.(*ssa.Return)
+				if !ok || len(ret.Results) != 1 {
+					return
+				}
+				if isNilConst(ret.Results[0]) || m.validFactAt(ret.Block(), cal.Params[0]) {
+					return
+				}
+				witness = false
+			})
+			delete(m.validWitnessBusy, cal)
+			if witness {
+				return true
+			}
+		}
+	}
 	// inline: c != nil && len(c.path) != 0
 	nonNil, nonEmpty := false, false
 	for _, cm := range cmpsAt(b) {
@@ -666,6 +703,35 @@ func (m *streeModel) validFactAt(b *ssa.BasicBlock, cur ssa.Value) bool {
 func (m *streeModel) ruleCursorGuard(c *Ctx) {
 	P := c.P
 	private := map[string]bool{"findNext": true, "findPrev": true}
+	// unexported cursor methods that touch the path without a validity test of their own are helpers with the
+	// precondition "valid cursor" (top(), moveTo(), …): they are judged at their call sites (fixpoint: a helper that
+	// calls such a helper unguarded inherits the precondition)
+	for changed := true; changed; {
+		changed = false
+		for _, fn := range P.Methods("stree", "Cursor") {
+			if fn.Object() == nil || fn.Object().Exported() || private[fn.Name()] || fn.Name() == "Valid" || len(fn.Params) == 0 {
+				continue
+			}
+			cur := fn.Params[0]
+			needs := false
+			allInstrs(fn, func(in ssa.Instruction) {
+				switch x := in.(type) {
+				case *ssa.FieldAddr:
+					if x.X == ssa.Value(cur) && !m.validFactAt(x.Block(), cur) {
+						needs = true
+					}
+				case *ssa.Call:
+					if cal := staticCallee(&x.Call); cal != nil && private[cal.Name()] && len(x.Call.Args) > 0 && x.Call.Args[0] == ssa.Value(cur) && !m.validFactAt(x.Block(), cur) {
+						needs = true
+					}
+				}
+			})
+			if needs {
+				private[fn.Name()] = true
+				changed = true
+			}
+		}
+	}
 	for _, fn := range P.Methods("stree", "Cursor") {
 		if fn.Name() == "Valid" {
 			continue
@@ -1102,6 +1168,39 @@ func runC04(c *Ctx) {
 				}
 			}
 		})
+		if !okS {
+			// several clearing stores, one per branch (`if it.m == nil { it.c = nil; return it }; it.c = nil; …`): no
+			// return and no search of the tree is reachable from the entry without passing one of them
+			isClear := func(in ssa.Instruction) bool {
+				st, ok := in.(*ssa.Store)
+				if !ok {
+					return false
+				}
+				fa, ok := st.Addr.(*ssa.FieldAddr)
+				if !ok {
+					return false
+				}
+				_, f := fieldVarOf(fa)
+				return sameField(f, cF) && isNilConst(st.Val)
+			}
+			target := func(in ssa.Instruction) bool {
+				if isReturn(in) {
+					return true
+				}
+				_, isClosure := in.(*ssa.MakeClosure)
+				return isClosure
+			}
+			missing, _ := reachesWithout(P, firstInstr(seek), true, target, isClear)
+			nClear := 0
+			allInstrs(seek, func(in ssa.Instruction) {
+				if isClear(in) {
+					nClear++
+				}
+			})
+			if !missing && nClear > 0 {
+				okS = true
+			}
+		}
 		pos := seek.Pos()
 		if first != nil {
 			pos = first.Pos()
@@ -1490,7 +1589,34 @@ func (m *streeModel) ruleRootFlow(c *Ctx) {
 			c.judge(ok2, "R-ROOT-FLOW", fmt.Sprintf("%s:root=%s", name, ksym(st.Val)), st.Pos(), "derives from the modified subtree", "the root is set to "+why+": the modification is lost or undone")
 		})
 		// and the modified subtree is stored on every path (when something changed)
-		okAll, wit := mustPassToExit(P, mod, func(in ssa.Instruction) bool {
+		storesRoot := func(in ssa.Instruction) bool {
+			if call, ok := in.(*ssa.Call); ok {
+				// a method of the same tree that (re)sets the root on all of its paths — Clear() when the last key
+				// went: the tree is emptied wholesale, which is what the removal's result would have been
+				cal := origin(staticCallee(&call.Call))
+				if cal != nil && cal.Blocks != nil && len(call.Call.Args) > 0 && call.Call.Args[0] == ssa.Value(fn.Params[0]) && cal != fn {
+					missing, _ := reachesWithout(P, firstInstr(cal), true, isReturn, func(in2 ssa.Instruction) bool {
+						st, ok := in2.(*ssa.Store)
+						if !ok {
+							return false
+						}
+						fa, ok := st.Addr.(*ssa.FieldAddr)
+						if !ok {
+							return false
+						}
+						_, f := fieldVarOf(fa)
+						return sameField(f, m.rootF) && isNilConst(st.Val)
+					})
+					if !missing {
+						for _, cm := range cmpsAt(call.Block()) {
+							if cf := m.countField(); cf != nil && cm.Op == token.EQL && isConstInt(cm.Y, 0) && isLoadOfField(cm.X, cf) {
+								return true
+							}
+						}
+					}
+				}
+				return false
+			}
 			st, ok := in.(*ssa.Store)
 			if !ok {
 				return false
@@ -1501,21 +1627,11 @@ func (m *streeModel) ruleRootFlow(c *Ctx) {
 			}
 			_, f := fieldVarOf(fa)
 			return sameField(f, m.rootF)
-		})
+		}
+		okAll, wit := mustPassToExit(P, mod, storesRoot)
 		if !okAll {
 			// paths on which nothing changed (ok == false) may skip the store
-			okAll, wit = mustPassToExitE(P, mod, func(in ssa.Instruction) bool {
-				st, ok := in.(*ssa.Store)
-				if !ok {
-					return false
-				}
-				fa, ok := st.Addr.(*ssa.FieldAddr)
-				if !ok {
-					return false
-				}
-				_, f := fieldVarOf(fa)
-				return sameField(f, m.rootF)
-			}, func(iff *ssa.If, i int) bool {
+			okAll, wit = mustPassToExitE(P, mod, storesRoot, func(iff *ssa.If, i int) bool {
 				f := expandFact(Fact{iff.Cond, i == 0})[0]
 				ex, ok := f.Cond.(*ssa.Extract)
 				return ok && ex.Tuple == ssa.Value(mod) && ex.Index == 1 && !f.Truth
@@ -1742,6 +1858,48 @@ func (m *streeModel) ruleSubtreeWalk(c *Ctx) {
 			// arg0 = c.path[len(c.path)-1]
 			okW = false
 			why = "the subtree walker is not started at the cursor's current node"
+			isLast := func(v ssa.Value, cur ssa.Value) bool {
+				addr, ok := loadAddr(v)
+				if !ok {
+					return false
+				}
+				ia, ok := addr.(*ssa.IndexAddr)
+				if !ok {
+					return false
+				}
+				base, f := loadedField(ia.X)
+				if f == nil || !sameField(f, m.pathF) || base != cur {
+					return false
+				}
+				bo, ok := ia.Index.(*ssa.BinOp)
+				if !ok || bo.Op != token.SUB || !isConstInt(bo.Y, 1) {
+					return false
+				}
+				ln, ok := isBuiltinCall(bo.X, "len")
+				if !ok {
+					return false
+				}
+				b2, f2 := loadedField(ln.Call.Args[0])
+				return f2 != nil && sameField(f2, m.pathF) && b2 == cur
+			}
+			// … or at what a current-node accessor of the cursor returns: a method on the same cursor all of whose
+			// results are nil or the last element of its path
+			if acc, ok := call.Call.Args[0].(*ssa.Call); ok && len(acc.Call.Args) == 1 && acc.Call.Args[0] == ssa.Value(fn.Params[0]) {
+				if cal := origin(staticCallee(&acc.Call)); cal != nil && cal.Blocks != nil && len(cal.Params) == 1 {
+					all, n := true, 0
+					allInstrs(cal, func(in ssa.Instruction) {
+						if ret, ok := in.(*ssa.Return); ok && len(ret.Results) == 1 {
+							n++
+							if !isNilConst(ret.Results[0]) && !isLast(ret.Results[0], cal.Params[0]) {
+								all = false
+							}
+						}
+					})
+					if all && n > 0 {
+						okW = true
+					}
+				}
+			}
 			if addr, ok := loadAddr(call.Call.Args[0]); ok {
 				if ia, ok := addr.(*ssa.IndexAddr); ok {
 					if base, f := loadedField(ia.X); f != nil && sameField(f, m.pathF) && base == ssa.Value(fn.Params[0]) {
